@@ -1,14 +1,15 @@
 (* Extraction of the hand-written executable models of C08. ExtrOcamlBasic only. *)
 From Coq Require Import ZArith List Extraction ExtrOcamlBasic.
 From MomoCommon Require Import GenPrelude.
-From C08 Require Gen_GrowCapacity Gen_ArrayBucket Gen_ArrayBucket_cnt Gen_ArrayBucket_s.
-From C08 Require ArrayBucketModel MultiMapModel WrapperModel.
+From C08 Require Gen_GrowCapacity Gen_ArrayBucket Gen_ArrayBucket_cnt Gen_ArrayBucket_s Gen_HashMultiMap.
+From C08 Require ArrayBucketModel MultiMapModel WrapperModel VersionModel.
 Separate Extraction
+  Gen_HashMultiMap.pvAddValue Gen_HashMultiMap.Remove_iter Gen_HashMultiMap.pvRemoveValues Gen_HashMultiMap.Clear
   Gen_GrowCapacity.GrowCapacity Gen_ArrayBucket.pvMakeState Gen_ArrayBucket.pvGetFastMemPoolIndex Gen_ArrayBucket.pvGetMemPoolIndex
   Gen_ArrayBucket_cnt.pvGetFastCount Gen_ArrayBucket_s.pvMakeState Gen_ArrayBucket_s.pvGetFastMemPoolIndex ArrayBucketModel.ab2_step
   ArrayBucketModel.ab_step ArrayBucketModel.ab_null ArrayBucketModel.rcount ArrayBucketModel.rcap
   ArrayBucketModel.pool_of ArrayBucketModel.fcount_of
   MultiMapModel.step MultiMapModel.st_empty MultiMapModel.traverse MultiMapModel.get_count
-  MultiMapModel.get_key_count MultiMapModel.find MultiMapModel.evals MultiMapModel.lin_pred MultiMapModel.step1f MultiMapModel.step1
+  MultiMapModel.get_key_count MultiMapModel.find MultiMapModel.evals VersionModel.vstep VersionModel.vstep1 VersionModel.vst_empty VersionModel.vmm_fresh VersionModel.vver MultiMapModel.lin_pred MultiMapModel.step1f MultiMapModel.step1
   WrapperModel.w_size WrapperModel.w_count WrapperModel.w_equal_range WrapperModel.w_insert WrapperModel.w_erase_key
   WrapperModel.w_erase_if WrapperModel.w_clear WrapperModel.w_erase_at WrapperModel.w_erase_range WrapperModel.w_eq.
